@@ -3,7 +3,8 @@
 (* An item of a FINISHED_EVALUATION event is                                   *)
 (*   [id, kind |-> "F"|"G", hasfun, obj (user-domain rank, an integer),        *)
 (*    nan (objective undefined), feas (every violation within the tolerance)]  *)
-(* An event is [src |-> "tracked"|"other", items |-> sequence of items].       *)
+(* An event is [src |-> "tracked"|"tracked2"|"other", items |-> ...]: two      *)
+(* tracked sources (steps) and one the tracker does not listen to.             *)
 (* The optimizer minimises  Opt(obj) = obj (no transform / positive scale)     *)
 (* or -obj (sign-flipping transform: the user maximises).                      *)
 EXTENDS Util
@@ -25,11 +26,11 @@ LastOf(kept, items) ==
   LET c == {i \in 1..Len(items) : Candidate(items[i])}
   IN IF c = {} THEN kept ELSE LET i == CHOOSE i \in c : \A j \in c : j <= i IN [id |-> items[i].id, obj |-> items[i].obj]
 Update(what, kept, ev, flip) ==
-  IF ev.src # "tracked" THEN kept
+  IF ev.src \notin {"tracked", "tracked2"} THEN kept
   ELSE IF what = "best" THEN BestFold(kept, ev.items, 1, flip) ELSE LastOf(kept, ev.items)
 
 \* ---- declarative: over the whole history (a sequence of events)
-AllItems(hist) == UNION {{hist[i].items[j] : j \in 1..Len(hist[i].items)} : i \in {k \in 1..Len(hist) : hist[k].src = "tracked"}}
+AllItems(hist) == UNION {{hist[i].items[j] : j \in 1..Len(hist[i].items)} : i \in {k \in 1..Len(hist) : hist[k].src \in {"tracked", "tracked2"}}}
 IsBest(keptId, hist, flip) ==
   LET V == {it \in AllItems(hist) : Valid(it)}
   IN IF V = {} THEN keptId = 0
